@@ -245,6 +245,10 @@ class LSMTree(Entity):
         self._sstable_write_latency = sstable_write_latency
         self._max_levels = max_levels
 
+        # WAL sequence numbers appended to the log but not yet applied to a
+        # memtable (their writers are still paying the WAL latency)
+        self._wal_unapplied: set[int] = set()
+
         # Active memtable
         self._memtable = Memtable(f"{name}_memtable", size_threshold=memtable_size)
 
@@ -347,8 +351,11 @@ class LSMTree(Entity):
 
         # WAL append
         if self._wal is not None:
+            seq = self._wal._next_sequence
+            self._wal_unapplied.add(seq)
             yield from self._wal.append(key, value)
             self._total_wal_writes += 1
+            self._wal_unapplied.discard(seq)
 
         # Memtable put
         is_full = yield from self._memtable.put(key, value)
@@ -459,8 +466,11 @@ class LSMTree(Entity):
         self._logical_data.pop(key, None)
 
         if self._wal is not None:
+            seq = self._wal._next_sequence
+            self._wal_unapplied.add(seq)
             yield from self._wal.append(key, _TOMBSTONE)
             self._total_wal_writes += 1
+            self._wal_unapplied.discard(seq)
 
         is_full = yield from self._memtable.put(key, _TOMBSTONE)
         if is_full:
@@ -504,6 +514,13 @@ class LSMTree(Entity):
         if self._memtable.size == 0:
             return
 
+        # Only WAL entries already applied to the memtable being flushed may be
+        # truncated afterwards: not those appended while the SSTable is written,
+        # nor earlier ones whose writers have not reached a memtable yet.
+        flushed_up_to = 0
+        if self._wal is not None:
+            flushed_up_to = min(self._wal_unapplied | {self._wal._next_sequence}) - 1
+
         # Move active memtable to immutable list
         old_memtable = self._memtable
         self._immutable_memtables.append(old_memtable)
@@ -531,7 +548,7 @@ class LSMTree(Entity):
 
         # Truncate WAL
         if self._wal is not None:
-            self._wal.truncate(self._wal._next_sequence - 1)
+            self._wal.truncate(flushed_up_to)
 
         logger.debug(
             "[%s] Flushed memtable to L0 SSTable(%d keys), L0 now has %d SSTables",
@@ -674,6 +691,7 @@ class LSMTree(Entity):
         """
         memtable_lost = self._memtable.size
         immutable_lost = sum(m.size for m in self._immutable_memtables)
+        self._wal_unapplied.clear()  # in-flight writers died with the process
 
         # Clear volatile state
         self._memtable = Memtable(
